@@ -220,10 +220,24 @@ reset
 @0 load -1
 @0 update
 reset
+@0 ctor 0 4 0
+@0 enter
+@0 to 1
+@1 copy 0
+@0 update
+@1 update
+@1 to 2
+@2 copy 1
+@1 update
+@2 update
+@2 dtor
+@1 dtor
+reset
 rnd %(seed)d1 70 0
 reset
 rnd %(seed)d2 70 3
 """
+# The copies are taken while a request waits: a copy must carry it whatever the switches (a member copied only under one switch).
 # Operations and control actions of a feature that is not compiled in are skipped by the harness (they are out of contract there),
 # so one program serves every switch combination; what must happen is decided by the specification instantiated with the
 # build's own feature constants: enabling a feature the program does not use must not change what the used ones do.
